@@ -60,6 +60,14 @@ theorem grow_ge {up : Bool} {H : Layout} (hH : HeaderOK H) {prev req s : Nat}
     (h : calcSize up H (Nat.max req (2 * prev)) = some s) : 2 * prev ≤ s + 16 :=
   Lemmas.grow_ge hH h
 
+/-- hence a later chunk is STRICTLY larger than its predecessor as soon as the predecessor is larger than 16 bytes
+    (every real chunk is: its size is a multiple of 16 that also holds a header) — the computed-size half of C10's
+    "each later chunk strictly larger than its predecessor" -/
+theorem grow_strict {up : Bool} {H : Layout} (hH : HeaderOK H) {prev req s : Nat} (hp : 16 < prev)
+    (h : calcSize up H (Nat.max req (2 * prev)) = some s) : prev < s := by
+  have := grow_ge hH h
+  omega
+
 theorem calcSize_mono {up : Bool} {H : Layout} (hH : HeaderOK H) {h1 h2 s1 s2 : Nat} (hle : h1 ≤ h2)
     (e1 : calcSize up H h1 = some s1) (e2 : calcSize up H h2 = some s2) : s1 ≤ s2 :=
   Lemmas.calcSize_mono hH hle e1 e2
